@@ -354,6 +354,9 @@ func c07Random(c *Case) {
 	if !c.c07Both(e, ctx) {
 		return
 	}
+	if c.Index%4 == 0 && !c.scalarCheckMany(e, []*xdoc.Node{ctx, d.Nodes[g.Intn(len(d.Nodes))], d.Nodes[g.Intn(len(d.Nodes))], ctx}) {
+		return // (one compiled expression at several context nodes)
+	}
 	c.recordShapeOf(e)
 	nt := false
 	xref.Walk(e, func(x xref.Expr) {
@@ -393,4 +396,37 @@ func altSpellings(v string) []string {
 		}
 	}
 	return out
+}
+
+// scalarCheckMany compiles e ONCE and evaluates the compiled expression at each context in turn (a value
+// remembered from an earlier context node inside the compiled expression shows at the later ones).
+func (c *Case) scalarCheckMany(e xref.Expr, ctxs []*xdoc.Node) bool {
+	src := xref.Render(e)
+	if c.expensive(e, ctxs[0].Doc) {
+		return true
+	}
+	ce := c.compile(src, func() map[string]interface{} { return docDetail(ctxs[0].Doc, ctxs[0]) })
+	if ce == nil {
+		return false
+	}
+	for i, ctx := range ctxs {
+		want, oof := xref.SafeEval(e, xref.NewCtx(ctx))
+		if oof != "" {
+			continue
+		}
+		got := c.RunEvaluate(ce, ctx)
+		c.Count("one-compiled-expression-many-contexts")
+		if !sameValue(got, want) {
+			dd := docDetail(ctx.Doc, ctx)
+			dd["expr"], dd["expected"], dd["observed"] = src, fmtValue(want), got.String()
+			var earlier []string
+			for _, p := range ctxs[:i] {
+				earlier = append(earlier, p.Label())
+			}
+			dd["evaluated_before_at"] = earlier
+			c.Violation("VALUE", dd)
+			return false
+		}
+	}
+	return true
 }
